@@ -126,6 +126,31 @@ func c02Ops() []concOp {
 			out.Hook = innerHook[int](set, true)
 			return sub(placeAny(ro.GroupBy(func(v int) int { return v % 2 })(ro.Merge(a, b)), place), out)
 		}},
+		// higher-order operators whose OUTER observable is asynchronous too: it hands over the inner
+		// observables and completes on its own goroutine while the inner ones emit on theirs
+		{name: "MergeAll(async outer)", heavy: true, build: func(a, b ro.Observable[int], set *recSet, out *h.Rec, place string) ro.Subscription {
+			outer, po := h.Pushed[ro.Observable[int]](h.NewSrc("outer"), h.Unsafe)
+			s := sub(placeInt(ro.MergeAll[int]()(outer), place), out)
+			vrt.GoNamed("producerOuter", func() { po.Next(a); po.Next(b); po.Complete() })
+			return s
+		}},
+		{name: "CombineLatestAll(async outer)", heavy: true, build: func(a, b ro.Observable[int], set *recSet, out *h.Rec, place string) ro.Subscription {
+			outer, po := h.Pushed[ro.Observable[int]](h.NewSrc("outer"), h.Unsafe)
+			s := sub(placeAny(ro.CombineLatestAll[int]()(outer), place), out)
+			vrt.GoNamed("producerOuter", func() { po.Next(a); po.Next(b); po.Complete() })
+			return s
+		}},
+		{name: "MergeMap(async source)", heavy: true, build: func(a, b ro.Observable[int], set *recSet, out *h.Rec, place string) ro.Subscription {
+			outer, po := h.Pushed[int](h.NewSrc("outer"), h.Unsafe)
+			s := sub(placeInt(ro.MergeMap(func(i int) ro.Observable[int] {
+				if i == 0 {
+					return a
+				}
+				return b
+			})(outer), place), out)
+			vrt.GoNamed("producerOuter", func() { po.Next(0); po.Next(1); po.Complete() })
+			return s
+		}},
 		// one producer calling a safe destination from two goroutines
 		{name: "SafeObservable", oneDest: true, modeA: h.Safe, build: func(a, b ro.Observable[int], set *recSet, out *h.Rec, place string) ro.Subscription {
 			return sub(placeInt(a, place), out)
